@@ -1,0 +1,62 @@
+//go:build verif
+
+package dual
+
+// Contracts for the dual WAN/LAN client (properties C15, C08, C04). Comment-only.
+
+/*@
+func (dht *DHT) WANActive() bool
+  props C15
+  ghostvar $sz int = 0
+  modifies nothing
+  ensures [internal-wan-liveness] result == ($sz > 0)
+  ghost at call(Size): $sz = $ret0
+
+func (dht *DHT) Provide(ctx context.Context, key cid.Cid, announce bool) (err error)
+  props C15
+  ghostvar $active bool = false
+  modifies *
+  ghost at call(WANActive): $active = $ret0
+  ghost at before call(Provide)#1: assert($active && $recv == dht.WAN && $arg1 == key && $arg2 == announce)
+  ghost at before call(Provide)#2: assert(!$active && $recv == dht.LAN && $arg1 == key && $arg2 == announce)
+
+func (dht *DHT) PutValue(ctx context.Context, key string, val []byte, opts ...routing.Option) (err error)
+  props C15
+  requires dht.WAN.bucketSize >= 1 && dht.WAN.alpha >= 1 && dht.WAN.beta >= 1 && dht.LAN.bucketSize >= 1 && dht.LAN.alpha >= 1 && dht.LAN.beta >= 1
+  ghostvar $active bool = false
+  modifies *
+  ghost at call(WANActive): $active = $ret0
+  ghost at before call(PutValue)#1: assert($active && $recv == dht.WAN && $arg1 == key && $arg2 == val)
+  ghost at before call(PutValue)#2: assert(!$active && $recv == dht.LAN && $arg1 == key && $arg2 == val)
+
+func (d *DHT) GetValue(ctx context.Context, key string, opts ...routing.Option) (result []byte, err error)
+  props C15 C04
+  ghostvar $wanVal []byte = nil
+  ghostvar $wanErr error = nil
+  modifies *
+  ensures [internal-wan-first] imp($wanErr == nil, err == nil && result == $wanVal)
+  ensures [internal-lan-fallback] imp($wanErr != nil && err == nil, result == lanVal && lanErr == nil)
+  ensures [internal-both-failed] imp(err != nil, $wanErr != nil && lanErr != nil && result == nil)
+  ghost at before call(GetValue)#2: assert($recv == d.WAN && $arg1 == key)
+  ghost at call(GetValue)#2: $wanVal = $ret0; $wanErr = $ret1
+
+func (dht *DHT) FindPeer(ctx context.Context, pid peer.ID) (pi peer.AddrInfo, err error)
+  props C15
+  modifies *
+  ensures pi.ID == pid
+  ensures [internal-error-only-if-both-failed] imp(err != nil, wanErr != nil && lanErr != nil)
+  ensures [internal-lan-only] imp(len(wanInfo.Addrs) == 0, pi.Addrs == lanInfo.Addrs)
+  ensures [internal-wan-only] imp(len(wanInfo.Addrs) != 0 && len(lanInfo.Addrs) == 0, pi.Addrs == wanInfo.Addrs)
+
+# merge goroutine of FindProvidersAsync: every forwarded provider is new, and
+# with a positive count at most count providers are forwarded
+funclit 1 in (dht *DHT) FindProvidersAsync(ctx context.Context, key cid.Cid, count int) (ch <-chan peer.AddrInfo)
+  props C15 C08
+  requires zeroCount == (count == 0) && count >= 0
+  ghostvar $sent int = 0
+  ghostvar $count0 int = count
+  ensures [internal-bound] imp(!zeroCount, $sent <= $count0)
+  ensures [closed] tagged("closed:outCh")
+  loop 0 invariant found != nil && $sent >= 0 && (zeroCount || ($sent + count == $count0 && count >= 0))
+  ghost at send(outCh): $sent = $sent + 1; assert(!has(found, pi.ID) && $msg == pi)
+@*/
